@@ -63,17 +63,19 @@ pub(crate) fn read_data_block<T: Read + Seek>(
 ) -> Option<Vec<u8>> {
     buf.seek(SeekFrom::Start(starting_position)).ok()?;
 
-    let block_header = BlockHeader::read(&mut buf).unwrap();
+    let block_header = BlockHeader::read(&mut buf).ok()?;
 
     match block_header.compression {
         CompressionMode::Compressed {
             compressed_length,
             decompressed_length,
         } => {
-            let mut compressed_data: Vec<u8> = vec![0; compressed_length as usize];
+            // negative lengths are damage, not sizes
+            let mut compressed_data: Vec<u8> = vec![0; usize::try_from(compressed_length).ok()?];
             buf.read_exact(&mut compressed_data).ok()?;
 
-            let mut decompressed_data: Vec<u8> = vec![0; decompressed_length as usize];
+            let mut decompressed_data: Vec<u8> =
+                vec![0; usize::try_from(decompressed_length).ok()?];
             if !no_header_decompress(&mut compressed_data, &mut decompressed_data) {
                 return None;
             }
@@ -81,7 +83,7 @@ pub(crate) fn read_data_block<T: Read + Seek>(
             Some(decompressed_data)
         }
         CompressionMode::Uncompressed { file_size } => {
-            let mut local_data: Vec<u8> = vec![0; file_size as usize];
+            let mut local_data: Vec<u8> = vec![0; usize::try_from(file_size).ok()?];
             buf.read_exact(&mut local_data).ok()?;
 
             Some(local_data)
